@@ -1,4 +1,6 @@
 import Mixin.Model.Membership
+import Mixin.Model.Finality
+import Mixin.Props.C09
 import Mixin.Facts.ExpectedC10
 import Mathlib.Data.Finset.Card
 /-!
@@ -209,6 +211,48 @@ theorem below_minimum_keys_short (n : Node) (ch : Chain) (round ts : Nat)
   unfold consensusThreshold
   simp only [hb, if_true]
   split at hle <;> omega
+
+/-! ## every (key vector, threshold) pair the finalization verifier uses
+
+`Mixin.Finality.finalizationAttempts` lists the pairs `verifyFinalization` hands to the certificate
+verifier (`Mixin.C09.verify_attempts` shows that these are the only ones): the primary attempt at the
+certificate timestamp and, on mainnet before the signer-set fork inside the node-operation window,
+the retry with the key vector of the hour before the window. -/
+
+open Mixin.Finality in
+theorem attempts_spec (c : Consts) (n : Node) (ch : Chain) (round ts : Nat) :
+    ∀ a ∈ finalizationAttempts c n ch round ts,
+      a = (consensusKeys c n ch round ts, consensusThreshold c n ts true) ∨
+      a = (consensusKeys c n ch round (legacyTs c n ts), consensusThreshold c n (legacyTs c n ts) true) := by
+  intro a ha
+  unfold finalizationAttempts at ha
+  split at ha
+  · cases ha
+  · simp only at ha
+    split at ha
+    · simp only [List.mem_singleton] at ha; exact Or.inl ha
+    · split at ha
+      · simp only [List.mem_singleton] at ha; exact Or.inl ha
+      · split at ha
+        · simp only [List.mem_singleton] at ha; exact Or.inl ha
+        · simp only [List.mem_cons, List.not_mem_nil, or_false] at ha
+          rcases ha with ha | ha
+          · exact Or.inl ha
+          · exact Or.inr ha
+
+open Mixin.Finality in
+/-- **attempts_intersect_partial**: for every pair the finalization verifier uses — primary and legacy
+    retry alike — two position sets meeting the pair's threshold share more than a third of the
+    pair's key vector (same exception as `quorum_intersect_partial`: round 0 on a pledging chain). -/
+theorem attempts_intersect_partial (n : Node) (ch : Chain) (round ts : Nat)
+    (hcase : round ≠ 0 ∨ ch.pledging = none)
+    (a : List (Nat × Nat) × Nat) (ha : a ∈ finalizationAttempts genConsts n ch round ts)
+    (S T : Finset Nat) (hS : S ⊆ Finset.range a.1.length) (hT : T ⊆ Finset.range a.1.length)
+    (hSc : a.2 ≤ S.card) (hTc : a.2 ≤ T.card) :
+    a.1.length < 3 * (S ∩ T).card := by
+  rcases attempts_spec genConsts n ch round ts a ha with h | h
+  · subst h; exact quorum_intersect_partial n ch round ts S T hcase hS hT hSc hTc
+  · subst h; exact quorum_intersect_partial n ch round _ S T hcase hS hT hSc hTc
 
 /-! ## the counterexample: 7 genesis nodes, one node pledged 13 h ago, its own chain, round 0 -/
 
